@@ -26,7 +26,7 @@ MANIFEST = {
             "identity on the byte stream. Floats survive bit-for-bit because only to_bits/to_le_bytes/from_le_bytes/from_bits are applied.",
     "note": "Trusted: serde's Serialize/Deserialize impls of std and user types (their side of the contract), std primitives, rustc MIR. 64-bit host only. "
             "Equality of decoded values for user types is serde's; we decide that the bytes written are read back by the inverse operation.",
-    "technique": "static analysis: table agreement on path-sensitive MIR summaries + bit-affine abstract interpretation + canonical glue summaries",
+    "technique": "static analysis: per-kind writer/reader table agreement on path-sensitive MIR evaluation + bit-affine (GF(2)) abstract interpretation of the integer helpers + semantic summaries of entry points and storage flavors compared with specifications",
 }
 
 PAIRS = [
